@@ -399,13 +399,17 @@ class Worker:
         return self.client.simulate_post(f"/{method}/exchange", body=buf.getvalue(), headers={**CT, **ident_header(ident)})
 
     def cache_rows(self, now: float, bodies: dict[bytes, list[str]]) -> list[dict[str, Any]]:
-        """Live entries of the real call-state cache, as the model's cache argument."""
+        """All entries of the real call-state cache with their deadlines, as the model's cache argument.
+
+        The model decides liveness itself (`exp <= now` is a miss).  Deadlines travel as ceil(expires_at) and the clock
+        as int(now): exact whenever either is a whole number of seconds (deadlines are, when token_ttl > 0).
+        """
+        import math
+
         rows = []
         for (cid, ident), (exp, resolved) in list(self.app._call_state_cache._entries.items()):
-            if exp <= now:
-                continue
             rows.append({"cid": b2j(cid), "ident": s2j(ident), "method": s2j(getattr(resolved, "method", "")),
-                         "body": bodies.get(cid, ["", "", "", "", ""])})
+                         "body": bodies.get(cid, ["", "", "", "", ""]), "exp": math.ceil(exp)})
         return rows
 
 
